@@ -229,6 +229,16 @@ Proof.
   cbv zeta. repeat split; try (repeat constructor; try eexists; try reflexivity; try discriminate).
 Qed.
 
+(* planner.go GetBreakpoint / breakScript: the pipeline is cut in two without loss or reordering, ClickHouse is never handed
+   a stage it cannot run (json without parameters, logfmt, line_format), and the in-process part — when there is one —
+   starts at the first such stage                                                                                     *)
+Theorem split_point_is_first_unsupported_stage : forall (absent : bool) (ps : list pipe),
+  clickhouse_pipes absent ps ++ internal_pipes absent ps = ps /\
+  forallb (fun p => negb (breaking p)) (clickhouse_pipes absent ps) = true /\
+  match internal_pipes absent ps with [] => True | p :: _ => breaking p = true end.
+Proof. exact split_sound. Qed.
+Print Assumptions split_point_is_first_unsupported_stage.
+
 (* the float facts assumed by stage_meets_definition_aggregation are satisfiable (here by the integers; they are the
    IEEE binary64 facts 0 < 1, 0 = 0, 1 <> 0, 0 < 0 + 1, x > 0 -> x + 1 > 0, x > 0 -> x <> 0) *)
 Example float_facts_satisfiable :
